@@ -23,7 +23,7 @@ ASSUMPTIONS = [
 COMPONENTS = {"real": ["TradingEnv.step (delay deque)", "Transmitter", "PortfolioSpace.null_action/make_rebalancing_request", "Broker.rebalance", "Exchange"],
               "harness": ["delivery model", "plain-list delay queue model"], "stub": []}
 PROBE_FLOORS = {"second_episode_on_same_env": 169, "delay_ge_2": 241, "discrete_with_delay": 100, "quote_exactly_on_latency_bound": 65,
-                "quote_1us_after_latency_bound": 43, "episode_shorter_than_delay": 20, "trade_priced": 2000, "late_event_with_latency": 70, "thinly_quoted_contracts": 120, "environment_construction_refused": 40, "episode_on_a_second_environment_with_another_latency": 20}
+                "quote_1us_after_latency_bound": 43, "episode_shorter_than_delay": 20, "trade_priced": 2000, "step_refused_because_of_a_malformed_action": 40, "late_event_with_latency": 70, "thinly_quoted_contracts": 120, "environment_construction_refused": 40, "episode_on_a_second_environment_with_another_latency": 20}
 
 PROFILE = {
     "n_min": 2, "n_max": 12, "n_long": 40, "p_long": 0.1, "c_min": 1, "c_max": 3, "p_bar": 1.0, "extras_max": 10,
@@ -124,11 +124,27 @@ def execute(scenario):
             violate("unexpected_state", "cannot locate the episode's first timestep from the clock {}".format(ep["reset"]["now"]), kind="start")
             break
         submitted = []
+        valid = []          # call indices of the in-space submissions, in order
+        bad_seen = False
+        n_done = 0          # executions so far in this episode
         execs = [r for r in sim.sink.records if r["kind"] == "EXEC" and r["env"] == 0 and ep["reset"]["seq"] < r["seq"]]
-        for k, st in enumerate(ep["steps"]):
+        for call, st in enumerate(ep["steps"]):
             if st["done_before"]:
                 break
             submitted.append(st["action"])
+            a_spec = uncanon(st["action"])
+            if isinstance(a_spec, dict) and "bad" in a_spec:
+                bad_seen = True
+            else:
+                valid.append(call)
+            if st.get("exc") is not None and bad_seen and st["exc"] in ("ValueError", "TypeError", "IndexError", "KeyError", "AssertionError"):
+                # a malformed action was submitted: it is rejected at some step up to the one at which it is due (when,
+                # and how often, is C17's business).  A refused call makes no decision and uses up no timestep; no
+                # in-space submission may get lost over it: the executions that follow continue the FIFO sequence
+                probe("step_refused_because_of_a_malformed_action")
+                continue
+            # the n-th execution of the episode happens at the n-th timestep and carries the (n-d)-th in-space submission
+            k = n_done
             if st.get("exc") is not None:
                 violate("unexpected_exception", "step {} raised {}: {} [{}]".format(k, st["exc"], st.get("msg"), st.get("site")),
                         op=k, exc=st["exc"], where="step", site=st.get("site"))
@@ -143,12 +159,16 @@ def execute(scenario):
                 break
             # FIFO delay: allocation executed at step k is the one submitted at k-d, else the null action
             src = k - delay
-            want = epicheck.allocation_of_action(h, scenario_action(scenario, ep, src)) if src >= 0 else epicheck.null_allocation(h)
+            n_done += 1
+            if src >= len(valid):
+                violate("fifo_delay", "execution {} (delay {}) happened although only {} in-space decisions were submitted so far".format(k, delay, len(valid)), op=k, kind="delayed")
+                break
+            want = epicheck.allocation_of_action(h, scenario_action(scenario, ep, valid[src])) if src >= 0 else epicheck.null_allocation(h)
             got = reb["alloc"]
             if got != want:
                 kind = "null_phase" if src < 0 else "delayed"
                 # which submission (if any) does it correspond to?
-                match = [j for j in range(len(submitted)) if epicheck.allocation_of_action(h, scenario_action(scenario, ep, j)) == got]
+                match = [j for j in valid if epicheck.allocation_of_action(h, scenario_action(scenario, ep, j)) == got]
                 violate("fifo_delay", "step {} (delay {}) executed allocation {} but the action submitted at step {} denotes {} (matches submissions {})".format(
                     k, delay, got, src if src >= 0 else "<null>", want, match), op=k, kind=kind)
                 break
@@ -290,4 +310,21 @@ def generate(rng, i):
         if env["latency_us"] > 0 and len(resets) >= 2 and not gen_epi.auto_disc(env) and not any(op["op"] in ("late_add", "bad_env") for op in sc["script"]):
             new_lat = 0 if (i // 5) % 2 == 0 else env["latency_us"] // 2
             sc["script"].insert(resets[1 + (i // 10) % (len(resets) - 1)], {"op": "new_env", "env": 0, "add": [], "latency_us": new_lat})
+    if i % 7 == 2 and sc.get("kind") == "epi" and sc.get("driver") != "backtest" and sc["envs"][0].get("delay", 0) >= 1:
+        # fault: one action outside the space is submitted somewhere in the first episode and the caller carries on after
+        # the error: the in-space decisions before and after it are executed all the same, none dropped, in order.
+        # Laid out without consuming draws of the generator's stream
+        import random
+        r2 = random.Random("bad-action:{}".format(i))
+        script = sc["script"]
+        first = [j for j, op in enumerate(script) if op["op"] == "step"]
+        resets = [j for j, op in enumerate(script) if op["op"] == "reset"]
+        if first and resets:
+            end = resets[1] if len(resets) >= 2 else len(script)
+            cand = [j for j in first if j < end]
+            if cand:
+                pos = r2.choice(cand)
+                bad = {"bad": r2.choice(["above", "nan", "below"])} if sc["envs"][0]["space"]["type"] == "box" else {"bad": "index_high"}
+                script.insert(pos, {"op": "step", "env": 0, "action": bad})
+                sc["malformed_action_inserted"] = True
     return sc
